@@ -458,39 +458,71 @@ def run(ctx):
     ctx.exhaustive[R] = True
 
     # ------------------------------------------------------------------
-    R = "C19.dictionary_construction"
-    ctx.rule(R, "the private construction from a dictionary, which clone() "
-             "uses, takes the values as they are at every validation level: "
-             "it calls no validator and cannot raise, so any line that "
-             "exists -- valid or not -- can be cloned (merge and multiply "
-             "clone lines after they have started changing the graph)",
-             floor=8)
-    seg1c = repo.cls("line.segment.GFA1")
-    f_init = ctx.anchor("Line.__init__", seg1c.find_method("__init__"))
+    rule_dictionary_construction(ctx, "C19.dictionary_construction")
 
-    class InitHooks(LineHooks):
-        def before_inline(self, ev, func, args, kwargs):
-            if func is not f_init and args and isinstance(args[0], Abs) and \
-                    args[0].label == "new":
-                ev.events.append(("call", func.name))
+    # ------------------------------------------------------------------
+    R = "C19.extension_reference_fields"
+    ctx.rule(R, "clone() renders as identifiers exactly the fields listed in "
+             "REFERENCE_FIELDS; for a record type added with "
+             "register_extension every declared reference field ends up in "
+             "REFERENCE_FIELDS and in REFERENCE_INITIALIZERS, whether or not "
+             "it shares its collection name or its target class with another "
+             "field", floor=4)
+    f_reg = ctx.anchor("Line.register_extension",
+                       line_cls.find_method("register_extension"))
+
+    class RegHooks(LineHooks):
+        def method(self, ev, base, name, args, kwargs, node):
+            if isinstance(base, Abs) and name in (
+                    "_define_reference_getters", "_apply_definitions"):
+                ev.events.append((name, base.label))
                 return None
-            return NotImplemented
-    for vl, virtual in itertools.product((0, 1, 2, 3), (False, True)):
+            return super().method(ev, base, name, args, kwargs, node)
+
+        def store(self, ev, target, value, st):
+            if isinstance(target, ast.Subscript) and \
+                    "EXTENSIONS" in unparse(target.value):
+                ev.events.append(("registered", getattr(value, "label", value)))
+                return None
+            return super().store(ev, target, value, st)
+    layouts = {
+        "two fields, one collection": [("sid1", "T", "bridges"),
+                                       ("sid2", "T", "bridges")],
+        "two fields, two collections": [("sid1", "T", "in_b"),
+                                        ("sid2", "T", "out_b")],
+        "two target classes, one collection name": [("sid", "T", "marks"),
+                                                    ("eid", "U", "marks")],
+        "collection already defined by the target": [("sid", "T", "known")],
+    }
+    for lname, refs in layouts.items():
         ctx.instance(R)
-        new = Abs(seg1c, label="new")
-        data = {"name": "a", "sequence": "ACGT", "LN": 99}
-        out = eval_function(repo, f_init, [new, data],
-                            {"vlevel": vl, "virtual": virtual,
-                             "version": "gfa1"}, hooks=InitHooks(repo))
-        calls = [e[1] for e in out[2] if e[0] == "call"]
-        ok = out[0] == "return" and not calls and \
-            new.attrs.get("_data") == data and \
-            new.attrs.get("_gfa") is None and new.attrs.get("_refs") == {}
+        targets = {n: Abs(None, label="target:" + n,
+                          DEPENDENT_LINES=["known"])
+                   for n in ("T", "U")}
+        ext = Abs(None, label="ext", POSFIELDS=["xid"] + [r[0] for r in refs],
+                  DATATYPE={"xid": "identifier_gfa2",
+                            **{r[0]: "identifier_gfa2" for r in refs}},
+                  RECORD_TYPE="X", NAME_FIELD=None, REFERENCE_FIELDS=[],
+                  REFERENCE_INITIALIZERS=None)
+        try:
+            out = eval_function(repo, f_reg, [ext],
+                                {"references": [(f, targets[k], rk)
+                                                for f, k, rk in refs]},
+                                hooks=RegHooks(repo))
+        except Unsupported as e:
+            raise AnalysisError(str(e))
+        rf = ext.attrs.get("REFERENCE_FIELDS") or []
+        ri = [(x[0], x[2]) for x in (ext.attrs.get("REFERENCE_INITIALIZERS")
+                                     or [])]
+        ok = out[0] == "return" and sorted(rf) == sorted(r[0] for r in refs) \
+            and sorted(ri) == sorted((r[0], r[2]) for r in refs) and all(
+                r[2] in targets[r[1]].attrs["DEPENDENT_LINES"] for r in refs)
         ctx.oblige(ok)
         if not ok:
-            ctx.violation(R, f_init.short, "vlevel=%d,virtual=%s" % (
-                vl, virtual), "outcome %r; calls on the new line: %r; _data "
-                "%r" % (out[0:2], calls, new.attrs.get("_data")))
+            ctx.violation(R, f_reg.short, lname,
+                          "outcome %r: REFERENCE_FIELDS %r, initialisers %r "
+                          "(declared: %r)" % (out[0:2], rf, ri,
+                                              [(r[0], r[2]) for r in refs]))
     ctx.exhaustive[R] = True
 
     # ------------------------------------------------------------------
@@ -627,6 +659,44 @@ def run(ctx):
                "(bytes), Placeholder, AlignmentPlaceholder and LastPos are "
                "immutable; list, dict, CIGAR, Trace, NumericArray, "
                "OrientedLine, FieldArray and Line are mutable (spec.py)")
+
+
+def rule_dictionary_construction(ctx, R):
+    """shared by C19 and C15 (multiply clones after it divided the counts)"""
+    repo = ctx.repo
+    ctx.rule(R, "the private construction from a dictionary, which clone() "
+             "uses, takes the values as they are at every validation level: "
+             "it calls no validator and cannot raise, so any line that "
+             "exists -- valid or not -- can be cloned (merge and multiply "
+             "clone lines after they have started changing the graph)",
+             floor=8)
+    seg1c = repo.cls("line.segment.GFA1")
+    f_init = ctx.anchor("Line.__init__", seg1c.find_method("__init__"))
+
+    class InitHooks(LineHooks):
+        def before_inline(self, ev, func, args, kwargs):
+            if func is not f_init and args and isinstance(args[0], Abs) and \
+                    args[0].label == "new":
+                ev.events.append(("call", func.name))
+                return None
+            return NotImplemented
+    for vl, virtual in itertools.product((0, 1, 2, 3), (False, True)):
+        ctx.instance(R)
+        new = Abs(seg1c, label="new")
+        data = {"name": "a", "sequence": "ACGT", "LN": 99}
+        out = eval_function(repo, f_init, [new, data],
+                            {"vlevel": vl, "virtual": virtual,
+                             "version": "gfa1"}, hooks=InitHooks(repo))
+        calls = [e[1] for e in out[2] if e[0] == "call"]
+        ok = out[0] == "return" and not calls and \
+            new.attrs.get("_data") == data and \
+            new.attrs.get("_gfa") is None and new.attrs.get("_refs") == {}
+        ctx.oblige(ok)
+        if not ok:
+            ctx.violation(R, f_init.short, "vlevel=%d,virtual=%s" % (
+                vl, virtual), "outcome %r; calls on the new line: %r; _data "
+                "%r" % (out[0:2], calls, new.attrs.get("_data")))
+    ctx.exhaustive[R] = True
 
 
 MEMO_DECORATORS = {"lru_cache", "cache", "cached_property", "memoize",
